@@ -57,6 +57,17 @@ pub fn pin_to_core(core: usize) {
     }
 }
 
+pub fn unpin() {
+    unsafe {
+        let mut set: libc::cpu_set_t = std::mem::zeroed();
+        let ncpu = libc::sysconf(libc::_SC_NPROCESSORS_ONLN).max(1) as usize;
+        for c in 0..ncpu {
+            libc::CPU_SET(c, &mut set);
+        }
+        libc::sched_setaffinity(0, std::mem::size_of::<libc::cpu_set_t>(), &set);
+    }
+}
+
 pub fn host_workers() -> usize {
     if let Ok(s) = std::env::var("VERIF_WORKERS") {
         if let Ok(n) = s.parse::<usize>() {
